@@ -103,7 +103,13 @@ func childMain() {
 			}
 		}
 	case "vc":
-		err = childVC(&job, skip)
+		err = childVC(&job, skip, "")
+	case "vcbatch":
+		for i := range job.Jobs {
+			if err = childVC(&job.Jobs[i], skip, fmt.Sprintf("%d/", i)); err != nil {
+				break
+			}
+		}
 	default:
 		err = fmt.Errorf("unknown job kind %q", job.Kind)
 	}
@@ -368,10 +374,10 @@ func hasVectorize(seq dag.Seq) bool {
 // childVC runs whole programs through compiler.VectorCompile (the vector
 // runtime over one VNG object holding the values) and through the sequential
 // runtime over the same values.
-func childVC(job *jobJ, skip map[string]bool) error {
+func childVC(job *jobJ, skip map[string]bool, prefix string) error {
 	ctx := context.Background()
 	input := strings.Join(job.Values, "\n")
-	path := job.Scratch + "/vc.vng"
+	path := job.Scratch + "/vc" + strings.TrimSuffix(prefix, "/") + ".vng"
 	f, err := os.Create(path)
 	if err != nil {
 		return err
@@ -389,7 +395,7 @@ func childVC(job *jobJ, skip map[string]bool) error {
 	}
 	cache := vcache.NewCache(storage.NewLocalEngine())
 	for i, prog := range job.Programs {
-		kseq := fmt.Sprintf("%d|seq", i)
+		kseq := fmt.Sprintf("%s%d|seq", prefix, i)
 		if !skip[kseq] {
 			emit(evJ{Ev: "begin", Key: kseq})
 			ev := evJ{Ev: "res", Key: kseq}
@@ -401,7 +407,7 @@ func childVC(job *jobJ, skip map[string]bool) error {
 			}
 			emit(ev)
 		}
-		kvec := fmt.Sprintf("%d|vec", i)
+		kvec := fmt.Sprintf("%s%d|vec", prefix, i)
 		if !skip[kvec] {
 			emit(evJ{Ev: "begin", Key: kvec})
 			ev := evJ{Ev: "res", Key: kvec}
